@@ -12,7 +12,9 @@ pub struct Factors(pub usize, pub Vec<Rc<String>>);
 
 impl cmp::PartialOrd for Factors {
     fn partial_cmp(&self, other: &Factors) -> Option<cmp::Ordering> {
-        Some(self.0.cmp(&other.0))
+        // Must agree with Ord, or equal factorizations aren't adjacent
+        // after sorting and dedup() misses them.
+        Some(self.cmp(other))
     }
 }
 
